@@ -175,20 +175,23 @@ theorem refuses_unknown_pose (env : Env A) (v : Vertex A) (h : v.pose.kind = .ot
   simp [Vertex.toG2O, h]
 
 /-- an odometry edge whose first vertex is not SE(2)/SE(3) (R² / R³ odometry): `NotImplementedError` -/
-theorem refuses_odometry (env : Env A) (k0 : PoseKind) (ids : List Int) (info : Mat A) (est : Pose A) (h2 : k0 ≠ .se2) (h3 : k0 ≠ .se3) :
-    Edge.toG2O env k0 ⟨ids, info, .odometry est⟩ = .error .notImplementedError := by
+theorem refuses_odometry (env : Env A) (k0 : PoseKind) (k1 : Except PyErr PoseKind) (ids : List Int) (info : Mat A) (est : Pose A)
+    (h2 : k0 ≠ .se2) (h3 : k0 ≠ .se3) :
+    Edge.toG2O env k0 k1 ⟨ids, info, .odometry est⟩ = .error .notImplementedError := by
   cases k0 <;> simp_all [Edge.toG2O]
 
-/-- a landmark edge whose first vertex is not SE(2)/SE(3) (Rⁿ → Rⁿ landmarks): `NotImplementedError` -/
-theorem refuses_landmark_from_point (env : Env A) (k0 : PoseKind) (ids : List Int) (info : Mat A) (est off : Pose A) (oid : Option Int)
-    (h2 : k0 ≠ .se2) (h3 : k0 ≠ .se3) : Edge.toG2O env k0 ⟨ids, info, .landmark est off oid⟩ = .error .notImplementedError := by
-  cases k0 <;> simp_all [Edge.toG2O]
+/-- a landmark edge that is neither SE(2) → R² nor SE(3) → R³ (Rⁿ → Rⁿ landmarks, landmark edges to a pose, mixed
+dimensions): `NotImplementedError` -/
+theorem refuses_landmark_classes (env : Env A) (k0 k1 : PoseKind) (ids : List Int) (info : Mat A) (est off : Pose A) (oid : Option Int)
+    (h2 : ¬ (k0 = .se2 ∧ k1 = .r2)) (h3 : ¬ (k0 = .se3 ∧ k1 = .r3)) :
+    Edge.toG2O env k0 (.ok k1) ⟨ids, info, .landmark est off oid⟩ = .error .notImplementedError := by
+  cases k0 <;> cases k1 <;> simp_all [Edge.toG2O]
 
-/-- an SE(2) landmark edge whose offset is not `np.array_equal` to the identity: `NotImplementedError`, before anything
+/-- an SE(2) → R² landmark edge whose offset is not `np.array_equal` to the identity: `NotImplementedError`, before anything
 of the edge is formatted -/
 theorem refuses_landmark_se2_offset (env : Env A) (ids : List Int) (info : Mat A) (est off : Pose A) (oid : Option Int)
     (h : numEqList env off.xs (identitySE2 env) = false) :
-    Edge.toG2O env .se2 ⟨ids, info, .landmark est off oid⟩ = .error .notImplementedError := by
+    Edge.toG2O env .se2 (.ok .r2) ⟨ids, info, .landmark est off oid⟩ = .error .notImplementedError := by
   simp [Edge.toG2O, h]
 
 /-- a landmark edge with an SE(3) offset that is not (equal to) the graph's `PARAMS_SE3OFFSET` parameter of its `offset_id`:
@@ -223,15 +226,16 @@ theorem preCheck_false_iff (env : Env A) (params : List (Param A)) (ids : List I
         · intro h; exact h z p rfl hl
   · simp [hk]
 
-/-- **`refuses_inexpressible` (partial)** — if the writer returns text at all, then every vertex has one of the four
-classes and every edge is a custom edge or has one of the writable shapes (odometry from SE(2)/SE(3); landmark from SE(2)
-with an identity offset; landmark from SE(3) with a registered offset).  Anything else is refused with the modelled
-exception; nothing of it is written differently.  NOT covered (see the counterexample below): the class of the
-*second* vertex of a landmark edge and the number of entries of its measurement. -/
-theorem refuses_inexpressible_partial (env : Env A) (g : Graph A) (text : Str) (h : Graph.toG2O env g = .ok text) :
+/-- **`refuses_inexpressible`** — if the writer returns text at all, then every vertex has one of the four classes, every
+edge passed the offset pre-check, and every edge is a custom edge (user code decides what it writes) or has one of the
+writable shapes of the property: odometry between SE(2) / SE(3) poses; landmark SE(2) → R² with an identity offset; landmark
+SE(3) → R³ (with, by the pre-check, a registered offset).  Contrapositive: a graph containing anything else makes
+`Graph.toG2O` return the modelled exception; nothing of it is written differently. -/
+theorem refuses_inexpressible (env : Env A) (g : Graph A) (text : Str) (h : Graph.toG2O env g = .ok text) :
     (∀ v ∈ g.vertices, v.pose.kind ≠ .other) ∧
     (∀ e ∈ g.edges, Edge.preCheck env g.params e = true ∧
-      ((∃ c est out, e.body = .custom c est out) ∨ ∃ k0, Edge.kind0 g.vertices e = .ok k0 ∧ EdgeShape env k0 e)) := by
+      ((∃ c est out, e.body = .custom c est out) ∨
+        ∃ k0, Edge.kind0 g.vertices e = .ok k0 ∧ EdgeShape env k0 (Edge.kind1 g.vertices e) e)) := by
   obtain ⟨hpre, _, hv, he⟩ := toG2O_ok_parts env g text h
   refine ⟨fun v hvm hk => ?_, fun e hem => ⟨?_, ?_⟩⟩
   · obtain ⟨l, hl⟩ := hv v hvm
@@ -240,16 +244,13 @@ theorem refuses_inexpressible_partial (env : Env A) (g : Graph A) (text : Str) (
   · obtain ⟨l, hl⟩ := he e hem
     exact write_edge_shape env g.vertices e l hl
 
-/-- **`refuses_inexpressible` counterexample** — the full clause ("whatever the vocabulary cannot express is refused") is
-false of the current code: a landmark edge from an SE(2) pose to another SE(2) **pose** (accepted by `is_valid`: offset of the
-first vertex's class, measurement of the second vertex's class, 3×3 information) is written as an `EDGE_SE2_XY` line with
-the first two entries of the measurement and the upper-left 2×2 block of the information matrix; reading that file raises
-`AssertionError` (the re-read edge has an R² measurement for an SE(2) vertex).  Replayed on the real code by the search. -/
-theorem refuses_inexpressible_counterexample :
-    (∃ text, Graph.toG2O Ex.env Ex.gLandmarkToPose = .ok text ∧
-      (Graph.fromG2O Ex.env [] text).result = .error .assertionError) ∧
-    Graph.init Ex.gLandmarkToPose.params Ex.gLandmarkToPose.vertices Ex.gLandmarkToPose.edges = .ok Ex.gLandmarkToPose := by
-  refine ⟨⟨"VERTEX_SE2 i a a a\nVERTEX_SE2 ii aaa aa aa\nEDGE_SE2_XY i ii aa aaa aa a aa\n".toList, by decide, by decide⟩, by decide⟩
+/-- the landmark edge between two SE(2) **poses** of `Ex.gLandmarkToPose` (accepted by `Graph(...)`, third example) is now
+refused: `NotImplementedError`, after the two vertex lines were written (second example: nothing else is in the file) -/
+example : Graph.toG2O Ex.env Ex.gLandmarkToPose = .error .notImplementedError := by decide
+example : Graph.toG2OTrace Ex.env Ex.gLandmarkToPose
+    = some ("VERTEX_SE2 i a a a\nVERTEX_SE2 ii aaa aa aa\n".toList, some .notImplementedError) := by decide
+example : Graph.init Ex.gLandmarkToPose.params Ex.gLandmarkToPose.vertices Ex.gLandmarkToPose.edges = .ok Ex.gLandmarkToPose := by
+  decide
 
 end
 end GraphSlam.Props.C13
